@@ -5,6 +5,13 @@ pub mod rec;
 pub mod report;
 pub mod vclock;
 
+/// (open file descriptors, memory mappings) of the calling process, from /proc/self.
+pub fn resources() -> (usize, usize) {
+    let fds = std::fs::read_dir("/proc/self/fd").map(|d| d.count().saturating_sub(1)).unwrap_or(0);
+    let maps = std::fs::read_to_string("/proc/self/maps").map(|s| s.lines().count()).unwrap_or(0);
+    (fds, maps)
+}
+
 /// Exact integer helpers shared by the reference models.
 pub fn ts_ns(sec: i64, nsec: i64) -> i128 {
     sec as i128 * 1_000_000_000 + nsec as i128
